@@ -212,12 +212,12 @@ def jobs(tier):
     q = tier == "quick"
     out = []
     L1 = {
-        "LinearModel": [(2, 2, 2), (2, 1, 3)] + ([] if q else [(3, 2, 2), (2, 3, 2)]),
+        "LinearModel": [(2, 2, 2), (2, 1, 3)] + ([] if q else [(3, 2, 2), (2, 3, 2), (3, 3, 3), (4, 2, 2)]),
         "KernelRIM": [(2, 2), (3, 2)] + ([] if q else [(2, 3)]),                      # (n, K): X is the n x n training kernel
-        "MLPModel": [(2, 1, 1, 2), (1, 2, 2, 2)] + ([] if q else [(2, 2, 2, 2), (2, 1, 2, 3)]),    # (n, d, h, K)
+        "MLPModel": [(2, 1, 1, 2), (1, 2, 2, 2)] + ([] if q else [(2, 2, 2, 2), (2, 1, 2, 3), (2, 2, 3, 2), (3, 1, 2, 2)]),    # (n, d, h, K)
         "SparseLinearModel": [(2, 2, 2)],
-        "SparseMLPModel": [(2, 1, 1, 2), (1, 2, 2, 2)] + ([] if q else [(2, 2, 1, 2)]),
-        "CategoricalModel": [(2, 2), (2, 3)] + ([] if q else [(3, 3)]),               # (n, K)
+        "SparseMLPModel": [(2, 1, 1, 2), (1, 2, 2, 2)] + ([] if q else [(2, 2, 1, 2), (2, 2, 2, 2), (2, 1, 2, 3)]),
+        "CategoricalModel": [(2, 2), (2, 3)] + ([] if q else [(3, 3), (3, 4), (4, 2)]),               # (n, K)
         "Douglas": [(1, 2, 1, 2), (2, 1, 2, 2), (1, 1, 3, 2)] + ([] if q else [(2, 2, 1, 2), (1, 2, 3, 2)]),     # (n, d, cuts, K): 3 cuts = the first non-involutive orderings
     }
     for fam, shapes in L1.items():
@@ -234,6 +234,11 @@ def jobs(tier):
         ("Douglas", (1, 1, 1, 2), "mi", None),
     ]
     if not q:
+        # every registry objective through the loop (the chain GEMINI gradient -> back-propagation -> optimiser), and saturated predictions
+        for gname in ("kl_ovo", "tv_ovo", "hellinger_ova", "hellinger_ovo", "chi2_ova", "mmd_ovo", "wasserstein_ovo"):
+            L2.append(("LinearModel", (2, 1, 2), gname, None))
+        L2 += [("CategoricalModel", (3, 2), "wasserstein_ova", None), ("MLPModel", (2, 1, 2, 2), "mmd_ovo", None), ("SparseMLPModel", (2, 1, 1, 2), "mmd_ova", 1),
+               ("Douglas", (2, 1, 2, 2), "wasserstein_ova", None), ("RIM", (3, 2, 2), "mi", 1), ("KernelRIM", (3, 2), "mi", 2), ("KernelRIM", (3, 3), "mi", 1)]
         L2 += [("LinearModel", (3, 2, 2), "mi", 2), ("LinearModel", (2, 1, 2), "wasserstein_ova", None), ("LinearModel", (2, 1, 2), "tv_ova", None),
                ("LinearModel", (2, 1, 3), "chi2_ovo", None), ("MLPModel", (2, 1, 1, 2), "mmd_ova", 1), ("SparseMLPModel", (2, 1, 1, 2), "mi", None),
                ("KernelRIM", (3, 2), "mi", None), ("Douglas", (2, 1, 1, 2), "mi", 1)]
